@@ -13,7 +13,20 @@ cd "$HERE"
 fail=0
 for d in preserving/*/; do
   id=$(basename $d)
-  out=$(tools/run_preserving.sh $d 2>&1)
+  # PRESERVING_SCOPE=near: only the checks of the change's own property and its two nearest
+  # neighbours (same entry points) instead of all seven - a third of the time
+  scope=""
+  if [ "${PRESERVING_SCOPE:-all}" = near ]; then
+    own=$(python3 -c "import json; print(json.load(open('$d/meta.json'))['property'])")
+    case "$own" in
+      C03) scope="C03 C06 C13";; C06) scope="C06 C03 C13";; C13) scope="C13 C03 C06";;
+      C11) scope="C11 C12 C15";; C12) scope="C12 C11 C15";; C15) scope="C15 C12 C11";;
+      C14) scope="C14 C13 C15";;
+    esac
+    # (checks that are expected to flag the change are always run)
+    scope="$scope $(python3 -c "import json; print(' '.join(json.load(open('$d/meta.json')).get('expected_flags', [])))")"
+  fi
+  out=$(tools/run_preserving.sh $d $scope 2>&1)
   bad=$(echo "$out" | grep -E "exit=[12]|does not apply|refusing" | tr '\n' ' ')
   # checks that meta.json expects to flag this change (it breaks THAT property after all)
   expected=$(python3 -c "import json; print(' '.join(json.load(open('$d/meta.json')).get('expected_flags', [])))")
